@@ -34,6 +34,24 @@ class SegList:
         yield from self.segments
 
 
+class LazySegList:
+    """Builds every Segment - and a fresh Style object for it - only when the console asks for the next one, as a
+    renderable that computes its output on the fly does; nothing keeps the earlier Style objects alive."""
+
+    def __init__(self, items):
+        self.items = items
+
+    def __rich_console__(self, console, options):
+        from rich.segment import Segment
+        for kind, text, rec in self.items:
+            if kind == "control":
+                yield Segment.control(text, G.build(rec)) if rec is not None else Segment.control(text)
+            elif rec is None:
+                yield Segment(text)
+            else:
+                yield Segment(text, G.build(rec))
+
+
 def make_console(system, no_color=False, terminal=True, legacy=False, **kw):
     from rich.console import Console
     return Console(file=io.StringIO(), width=kw.pop("width", 400), color_system=system,
@@ -66,11 +84,18 @@ def expected_char(rec, system, no_color, legacy):
 def gen_segments(rng):
     w = S.pick_weights(rng)
     palette = [G.rand_record(rng) for _ in range(3)]
+    if rng.random() < 0.4:
+        # near-twins: styles that differ in one attribute value / one field only, side by side in one flush
+        palette[1] = G.near_twin(palette[0], rng)
+        if rng.random() < 0.5:
+            palette[2] = G.near_twin(palette[0], rng)
     items = []
     for _ in range(rng.randint(1, 12)):
         r = rng.random()
         if r < 0.1:
-            items.append(("control", rng.choice(CONTROLS), None))
+            # (Segment.control takes a style too: it styles nothing visible, and must not turn the control code into
+            # something a non-terminal receives)
+            items.append(("control", rng.choice(CONTROLS), rng.choice(palette) if rng.random() < 0.2 else None))
             continue
         text = S.free_string(rng, rng.choice([0, 1, 3, 8, 20]), w, space=0.15, newline=0.05)
         if rng.random() < 0.08:
@@ -92,7 +117,7 @@ def real_segments(items, cache=None):
     out = []
     for kind, text, rec in items:
         if kind == "control":
-            out.append(Segment.control(text))
+            out.append(Segment.control(text, G.build(rec)) if rec is not None else Segment.control(text))
         elif rec is None:
             out.append(Segment(text))
         else:
@@ -178,13 +203,16 @@ def wl_segments(ctx, rng, case_no):
     cfg = rand_cfg(rng)
     system, no_color, terminal, legacy = cfg
     # optionally a console-wide style and / or a print(style=...): both are applied UNDER the segment's own style
-    cstyle = G.rand_record(rng, p_attr=0.1, p_link=0.0) if rng.random() < 0.12 else None
-    pstyle = G.rand_record(rng, p_attr=0.1, p_link=0.0) if rng.random() < 0.12 else None
+    cstyle = G.rand_record(rng, p_attr=0.1, p_link=0.0) if rng.random() < 0.15 else None
+    pstyle = G.rand_record(rng, p_attr=0.1, p_link=0.0) if rng.random() < 0.2 else None
     console = make_console(system, no_color, terminal, legacy, **({"style": G.build(cstyle)} if cstyle else {}))
     wit = {"segments": _items_json(items), "color_system": system, "no_color": no_color,
            "is_terminal": terminal, "legacy_windows": legacy,
            "console_style": G.definition(cstyle) if cstyle else None, "print_style": G.definition(pstyle) if pstyle else None}
-    console.print(SegList(real_segments(items)), crop=False, style=G.build(pstyle) if pstyle else None)
+    lazy = rng.random() < 0.3
+    wit["segments_built"] = "lazily, one fresh Style per segment" if lazy else "up front"
+    console.print(LazySegList(items) if lazy else SegList(real_segments(items)), crop=False,
+                  style=G.build(pstyle) if pstyle else None)
     stream = console.file.getvalue()
     wit["stream"] = stream
     expect_items = items
@@ -214,8 +242,12 @@ def wl_text(ctx, rng, case_no):
     if base:
         t.style = G.build(base)
     spans = []
+    prev = None
     for _ in range(rng.randint(0, 5)):
         rec = G.rand_record(rng, p_attr=0.1)
+        if prev is not None and rng.random() < 0.35:
+            rec = G.near_twin(prev, rng)        # a span whose style differs from the previous one in one place only
+        prev = rec
         a = rng.randint(0, n)
         b = rng.randint(a, n)
         if b > a:
